@@ -421,6 +421,12 @@ func reifyValue(
 			return reifyPrimitive(opts, val, t, baseType)
 		}
 
+		leave, cerr := opts.opts.enterDynamic(val)
+		if cerr != nil {
+			return reflect.Value{}, cerr
+		}
+		defer leave()
+
 		newSt := reflect.New(baseType)
 		if err := reifyInto(opts.opts, newSt, sub); err != nil {
 			return reflect.Value{}, err
@@ -442,6 +448,12 @@ func reifyValue(
 		if baseType.Key().Kind() != reflect.String {
 			return reflect.Value{}, raiseKeyInvalidTypeUnpack(baseType, sub)
 		}
+
+		leave, cerr := opts.opts.enterDynamic(val)
+		if cerr != nil {
+			return reflect.Value{}, cerr
+		}
+		defer leave()
 
 		newMap := reflect.MakeMap(baseType)
 		if err := reifyInto(opts.opts, newMap, sub); err != nil {
@@ -531,6 +543,11 @@ func reifyMergeValue(
 		if err != nil {
 			return reflect.Value{}, raiseExpectedObject(opts.opts, val)
 		}
+		leave, cerr := opts.opts.enterDynamic(val)
+		if cerr != nil {
+			return reflect.Value{}, cerr
+		}
+		defer leave()
 		return old, reifyMap(opts.opts, old, sub, opts.validators)
 
 	case reflect.Struct:
@@ -542,6 +559,11 @@ func reifyMergeValue(
 			}
 			return reflect.Value{}, raiseExpectedObject(opts.opts, val)
 		}
+		leave, cerr := opts.opts.enterDynamic(val)
+		if cerr != nil {
+			return reflect.Value{}, cerr
+		}
+		defer leave()
 		return oldValue, reifyStruct(opts.opts, old, sub)
 
 	case reflect.Array:
